@@ -147,7 +147,7 @@ def run(ctx):
     # 2. history generation by TLC -- independent TLC runs, started together
     def main_mc():
         cfg = _write(os.path.join(ctx.work, 'MC_CloneAlias_run.cfg'),
-                     'SPECIFICATION Spec\n' + _consts(MaxDepth=4 if quick else 5) +
+                     'SPECIFICATION Spec\n' + _consts(MaxDepth=4 if quick else 6) +
                      'INVARIANT TypeOK\nINVARIANT CloneFaithful\nINVARIANT SymbolsResolveInOwnChain\n'
                      'INVARIANT ParentScopeOfOriginalUnchanged\nPROPERTY OtherCopyUnchanged\nPROPERTY EffectOnTarget\n'
                      'CHECK_DEADLOCK FALSE\n')
@@ -167,6 +167,7 @@ def run(ctx):
     pool = None if ctx.replay else make_pool(workers)
     try:
         with cf.ThreadPoolExecutor(max_workers=12) as ex:
+            f_exh = f_smp = None
             if ctx.replay:
                 c = ctx.replay['case']
                 tasks = [(c['fx'], c['events'])]
@@ -187,7 +188,7 @@ def run(ctx):
                     fx = L.gen_fixture(kind, rng)
                     tasks += [(fx, h) for h in short]
                 # longer histories: quick = a seeded subset on fresh random fixtures; thorough = all, kinds rotating
-                pick = rest[:150] if quick else rest
+                pick = rest[:250] if quick else rest
                 for i, h in enumerate(pick + smp):
                     for kind in ([L.KINDS[i % 6]] if quick or i >= len(pick) else [L.KINDS[i % 6], L.KINDS[(i + 3) % 6]]):
                         tasks.append((L.gen_fixture(kind, rng), h))
@@ -250,7 +251,7 @@ def run(ctx):
         'modifications: rename (name attribute), re-type (symbol table / variables setter), body edits (append, prepend, '
         'Transformer replace, in-place node update), spec edits (new declaration, new node), symbol-table entry, new member',
         'Sourcefile.clone has no name override: histories with a renaming clone are not replayed on the file kind',
-        'quick: every history clone+<=1 modification on all 6 unit kinds, 150 seeded longer TLC histories; thorough: all '
+        'quick: every history clone+<=1 modification on all 6 unit kinds, 250 seeded longer TLC histories; thorough: all '
         'TLC histories of <= 3 events (clone first or second) on 2 kinds each + 4000 sampled histories of 5 events',
         'violated identity clauses are recorded and the history is validated further; a violated content clause ends it',
         'TLC and CloneAlias.tla are trusted; python only drives Loki and projects identities/types/text hashes',
@@ -259,3 +260,27 @@ def run(ctx):
 
 def _brief(v):
     return {k: v[k] for k in ('name', 'tab', 'body', 'members', 'owners', 'memparent', 'memtab', 'calls', 'tdef')}
+
+
+def selftest(ctx):
+    """Binding check of the trace validation: an honest case is accepted, corrupted recordings are rejected."""
+    import copy
+    rng = random.Random(1)
+    fx = L.gen_fixture('func', rng)
+    ev = [{'op': 'clone', 'k': 'c', 'a1': '', 'a2': '', 'how': ''},
+          {'op': 'editbody', 'k': 'c', 'a1': 'e1', 'a2': '', 'how': 'append'},
+          {'op': 'retype', 'k': 'o', 'a1': 'v1', 'a2': 'real', 'how': 'symtab'}]
+    good = replay(fx, ev)
+    bad1 = copy.deepcopy(good)
+    bad1['events'][1]['after']['o']['body'].append('e1')        # the edit of the clone leaks into the original
+    bad2 = copy.deepcopy(good)
+    bad2['events'][2]['after']['c']['occ']['v1'] = ['real']     # the clone's symbols resolve through the original
+    bad3 = copy.deepcopy(good)
+    bad3['events'][0]['after']['c']['owners'] = ['other', 'self']
+    bad4 = copy.deepcopy(good)
+    bad4['events'][0]['after']['c']['text'] = 'deadbeef0000'
+    v = ctx.validate('Trace_CloneAlias', 'Trace_CloneAlias', [good, bad1, bad2, bad3, bad4])
+    want = [(True, 'ok'), (False, 'U:bo@2;'), (False, 'U:oc@3;'), (False, 'S:c:ow@1;'), (False, 'C:tx@1;')]
+    got = [(v[i][0], v[i][1]) for i in range(5)]
+    print('selftest C17', 'PASS' if got == want else f'FAIL {got}')
+    return 0 if got == want else 2
